@@ -1,5 +1,6 @@
 import CasbinModel.Cached
 import CasbinModel.Props.C10
+import CasbinModel.Lemmas.Batch
 /-!
 # C11 — Caching never changes a decision
 
@@ -186,6 +187,342 @@ theorem enforce_oracle_core (call : String → List String → Option Atom) (tbl
     ∀ e e', C10.sameCore e e' → ∀ (req : List Val), e'.enforce call tbl req = e.enforce call tbl req :=
   fun e e' h req => C10.enforce_depends_on_core e e' h call tbl req
 
+/-! ### All five management calls, and every history of requests and management calls -/
+
+inductive MOp where
+  | add (sec pt : String) (rule : Rule)
+  | remove (sec pt : String) (rule : Rule)
+  | addMany (sec pt : String) (rules : List Rule)
+  | removeMany (sec pt : String) (rules : List Rule)
+  | removeFiltered (sec pt : String) (idx : Nat) (vals : List String)
+
+def MOp.run (e : Enforcer) : MOp → Enforcer × Res
+  | .add sec pt rule => e.addPolicy sec pt rule
+  | .remove sec pt rule => e.removePolicy sec pt rule
+  | .addMany sec pt rules => e.addPolicies sec pt rules
+  | .removeMany sec pt rules => e.removePolicies sec pt rules
+  | .removeFiltered sec pt idx vals => e.removeFiltered sec pt idx vals
+
+/-- a batch call names at least one rule -/
+def MOp.NonEmpty : MOp → Prop
+  | .addMany _ _ rules => rules ≠ []
+  | .removeMany _ _ rules => rules ≠ []
+  | _ => True
+
+/-- the model-side store operation of a call: the new store and its "changed" answer -/
+def MOp.storeOp (s : Store) : MOp → Store × Bool
+  | .add sec pt rule => s.addPolicy sec pt rule
+  | .remove sec pt rule => s.removePolicy sec pt rule
+  | .addMany sec pt rules => s.addPolicies sec pt rules
+  | .removeMany sec pt rules => s.removePolicies sec pt rules
+  | .removeFiltered sec pt idx vals => ((s.removeFiltered sec pt idx vals).1, (s.removeFiltered sec pt idx vals).2.1)
+
+def resFailed : Res → Bool
+  | .err _ => true
+  | .panic => true
+  | _ => false
+
+/-- the tail shared by the five `*_internal` functions once the adapter is out of the way -/
+def finish (e : Enforcer) (s' : Store) (flag : Bool) (ev : Event) (sec pt : String) (ins : Bool)
+    (rules : List Rule) (ret : Res) : Enforcer × Res :=
+  (if flag && e.autoNotify then ({ e with store := s' } : Enforcer).emit ev else { e with store := s' }).linkUpdate
+    flag sec pt ins rules ret
+
+theorem run_shape (e : Enforcer) (hs : e.autoSave = false) (op : MOp) :
+    ∃ ev sec pt ins rules ret,
+      op.run e = finish e (op.storeOp e.store).1 (op.storeOp e.store).2 ev sec pt ins rules ret ∧
+      resChanged ret = (op.storeOp e.store).2 ∧ resFailed ret = false := by
+  cases op with
+  | add sec pt rule =>
+    refine ⟨.addPolicy sec pt rule, sec, pt, true, [rule], .bool (e.store.addPolicy sec pt rule).2, ?_, rfl, rfl⟩
+    simp only [MOp.run, Enforcer.addPolicy, hs, Bool.false_eq_true, if_false, finish, MOp.storeOp]
+  | remove sec pt rule =>
+    refine ⟨.removePolicy sec pt rule, sec, pt, false, [rule], .bool (e.store.removePolicy sec pt rule).2, ?_, rfl, rfl⟩
+    simp only [MOp.run, Enforcer.removePolicy, hs, Bool.false_eq_true, if_false, finish, MOp.storeOp]
+  | addMany sec pt rules =>
+    refine ⟨.addPolicies sec pt rules, sec, pt, true, rules, .bool (e.store.addPolicies sec pt rules).2, ?_, rfl, rfl⟩
+    simp only [MOp.run, Enforcer.addPolicies, hs, Bool.false_eq_true, if_false, finish, MOp.storeOp]
+  | removeMany sec pt rules =>
+    refine ⟨.removePolicies sec pt rules, sec, pt, false, rules, .bool (e.store.removePolicies sec pt rules).2, ?_, rfl, rfl⟩
+    simp only [MOp.run, Enforcer.removePolicies, hs, Bool.false_eq_true, if_false, finish, MOp.storeOp]
+  | removeFiltered sec pt idx vals =>
+    refine ⟨.removeFiltered sec pt (e.store.removeFiltered sec pt idx vals).2.2, sec, pt, false,
+      (e.store.removeFiltered sec pt idx vals).2.2,
+      .rules (e.store.removeFiltered sec pt idx vals).2.1 (e.store.removeFiltered sec pt idx vals).2.2, ?_, rfl, rfl⟩
+    simp only [MOp.run, Enforcer.removeFiltered, hs, Bool.false_eq_true, if_false, finish, MOp.storeOp]
+
+theorem linkUpdate_store (x : Enforcer) (c : Bool) (sec pt : String) (ins : Bool) (rules : List Rule) (ret : Res) :
+    (x.linkUpdate c sec pt ins rules ret).1.store = x.store := by
+  unfold Enforcer.linkUpdate
+  split
+  · rfl
+  · split
+    · rfl
+    · split <;> rfl
+
+theorem linkUpdate_res (x : Enforcer) (c : Bool) (sec pt : String) (ins : Bool) (rules : List Rule) (ret : Res) :
+    (x.linkUpdate c sec pt ins rules ret).2 = ret ∨ ∃ k, (x.linkUpdate c sec pt ins rules ret).2 = .err k := by
+  unfold Enforcer.linkUpdate
+  split
+  · exact Or.inl rfl
+  · split
+    · exact Or.inl rfl
+    · split
+      · exact Or.inl rfl
+      · exact Or.inr ⟨_, rfl⟩
+
+theorem emit_store (x : Enforcer) (ev : Event) : (x.emit ev).store = x.store := by
+  unfold Enforcer.emit; split <;> rfl
+
+theorem finish_store (e : Enforcer) (s' : Store) (flag : Bool) (ev : Event) (sec pt : String) (ins : Bool)
+    (rules : List Rule) (ret : Res) : (finish e s' flag ev sec pt ins rules ret).1.store = s' := by
+  unfold finish
+  rw [linkUpdate_store]
+  split
+  · rw [emit_store]
+  · rfl
+
+/-- a call whose model-side operation reports no change leaves the decision core alone, provided the store is
+what it was; one that reports a change either returns that or fails -/
+theorem finish_nochange (e : Enforcer) (s' : Store) (flag : Bool) (ev : Event) (sec pt : String) (ins : Bool)
+    (rules : List Rule) (ret : Res) (hret : resChanged ret = flag)
+    (hnf : resFailed (finish e s' flag ev sec pt ins rules ret).2 = false)
+    (hch : resChanged (finish e s' flag ev sec pt ins rules ret).2 = false) (hst : s' = e.store) :
+    C10.sameCore e (finish e s' flag ev sec pt ins rules ret).1 := by
+  cases flag with
+  | false =>
+    subst hst
+    simp only [finish, Bool.false_and, Bool.false_eq_true, if_false]
+    unfold Enforcer.linkUpdate
+    simp only [Bool.not_false, Bool.true_or, if_true]
+    exact ⟨rfl, rfl, rfl, rfl, rfl, rfl, rfl, rfl⟩
+  | true =>
+    exfalso
+    rcases linkUpdate_res (if true && e.autoNotify then ({ e with store := s' } : Enforcer).emit ev else { e with store := s' })
+      true sec pt ins rules ret with h | ⟨k, h⟩
+    · have : (finish e s' true ev sec pt ins rules ret).2 = ret := h
+      rw [this, hret] at hch; cases hch
+    · have : (finish e s' true ev sec pt ins rules ret).2 = .err k := h
+      rw [this] at hnf; cases hnf
+
+/-- **every management call keeps the cache sound** (auto-save off, any of the five internal calls, on any policy
+type): when it reports a change or changes the store the cache is emptied; otherwise, unless it fails, the
+decision core is identical -/
+theorem mgmt_sound_all (oracle : Oracle) (horacle : ∀ e e', C10.sameCore e e' → ∀ k, oracle e' k = oracle e k)
+    (c : Cached) (hs : CacheSound oracle c) (op : MOp) (hsave : c.inner.autoSave = false)
+    (hfail : resFailed (op.run c.inner).2 = true → (op.run c.inner).1.store ≠ c.inner.store) :
+    CacheSound oracle (c.mgmt (fun e => op.run e) storeOrResChanged).1 := by
+  apply mgmt_sound oracle c _ _ hs
+  intro hc k
+  apply horacle
+  simp only [storeOrResChanged, Bool.or_eq_false_iff, decide_eq_false_iff_not, ne_eq] at hc
+  obtain ⟨hc1, hc2'⟩ := hc
+  have hc2 : (op.run c.inner).1.store = c.inner.store := Decidable.of_not_not hc2'
+  have hnf : resFailed (op.run c.inner).2 = false := by
+    cases hf : resFailed (op.run c.inner).2 with
+    | false => rfl
+    | true => exact absurd hc2 (hfail hf)
+  obtain ⟨ev, sec, pt, ins, rules, ret, hrun, hret, _⟩ := run_shape c.inner hsave op
+  rw [hrun] at hc1 hc2 hnf ⊢
+  rw [finish_store] at hc2
+  exact finish_nochange _ _ _ _ _ _ _ _ _ hret hnf hc1 hc2
+
+/-- a model-side operation that reports a change did change the store (a batch must name a rule) -/
+theorem storeOp_changed (s : Store) (op : MOp) (hne : op.NonEmpty) (h : (op.storeOp s).2 = true) :
+    (op.storeOp s).1 ≠ s := by
+  intro heq
+  cases op with
+  | add sec pt rule =>
+    simp only [MOp.storeOp] at h heq
+    have hg := Store.addPolicy_getPolicy s sec pt rule sec pt
+    rw [heq] at hg
+    unfold Store.addPolicy at h
+    cases hf : s.find sec pt with
+    | none => simp [hf] at h
+    | some d =>
+      simp only [hf] at h
+      have hnin : rule ∉ d.policy := by
+        intro hin; simp [OrdSet.add, hin] at h
+      simp only [and_self, hf, Option.isSome_some, if_true, true_and, Store.getPolicy, OrdSet.add, hnin, if_false] at hg
+      have := congrArg List.length hg
+      simp at this
+  | remove sec pt rule =>
+    simp only [MOp.storeOp] at h heq
+    have hg := Store.removePolicy_getPolicy s sec pt rule sec pt
+    rw [heq] at hg
+    unfold Store.removePolicy at h
+    cases hf : s.find sec pt with
+    | none => simp [hf] at h
+    | some d =>
+      simp only [hf] at h
+      have hin : rule ∈ d.policy := by
+        by_cases hin : rule ∈ d.policy
+        · exact hin
+        · simp [OrdSet.remove, hin] at h
+      simp only [and_self, hf, Option.isSome_some, if_true, true_and, Store.getPolicy, OrdSet.remove, hin] at hg
+      have := congrArg List.length hg
+      have hpos : 0 < d.policy.length := List.length_pos_of_mem hin
+      first
+        | (rw [List.length_erase_of_mem hin] at this; omega)
+        | (rw [erase_inst_irrel, List.length_erase_of_mem hin] at this; omega)
+        | (rw [← erase_inst_irrel, List.length_erase_of_mem hin] at this; omega)
+  | addMany sec pt rules =>
+    simp only [MOp.storeOp] at h heq
+    unfold Store.addPolicies at h heq
+    cases hf : s.find sec pt with
+    | none => simp [hf] at h
+    | some d =>
+      simp only [hf] at h heq
+      by_cases hany : rules.any (fun r => decide (r ∈ d.policy)) = true
+      · simp [hany] at h
+      · simp only [hany, Bool.false_eq_true, if_false] at heq
+        have hg := Store.getPolicy_update' s sec pt sec pt (fun pol => OrdSet.addAll pol rules)
+        rw [heq] at hg
+        simp only [and_self, hf, Option.isSome_some, if_true, true_and, Store.getPolicy] at hg
+        cases rules with
+        | nil => exact hne rfl
+        | cons r rs =>
+          have hr : r ∉ d.policy := by
+            intro hin; apply hany; simp [hin]
+          have : r ∈ OrdSet.addAll d.policy (r :: rs) := (OrdSet.addAll_mem _ _ _).mpr (Or.inr (by simp))
+          rw [← hg] at this
+          exact hr this
+  | removeMany sec pt rules =>
+    simp only [MOp.storeOp] at h heq
+    unfold Store.removePolicies at h heq
+    cases hf : s.find sec pt with
+    | none => simp [hf] at h
+    | some d =>
+      simp only [hf] at h heq
+      by_cases hany : rules.any (fun r => decide (r ∉ d.policy)) = true
+      · rw [if_pos hany] at h; exact absurd h (by simp)
+      · simp only [hany, Bool.false_eq_true, if_false] at heq
+        have hg := Store.getPolicy_update' s sec pt sec pt (fun pol => OrdSet.removeAll pol rules)
+        rw [heq] at hg
+        simp only [and_self, hf, Option.isSome_some, if_true, true_and, Store.getPolicy] at hg
+        cases rules with
+        | nil => exact hne rfl
+        | cons r rs =>
+          have hr : r ∈ d.policy := by
+            by_cases hin : r ∈ d.policy
+            · exact hin
+            · exfalso; apply hany; simp [hin]
+          have hlen : (OrdSet.removeAll d.policy (r :: rs)).length < d.policy.length := by
+            have hsub := (OrdSet.removeAll_sublist (OrdSet.remove d.policy r).1 rs).length_le
+            have hpos : 0 < d.policy.length := List.length_pos_of_mem hr
+            have h2 : (OrdSet.remove d.policy r).1.length < d.policy.length := by
+              simp only [OrdSet.remove, hr, if_true]
+              first
+                | (rw [List.length_erase_of_mem hr]; omega)
+                | (rw [erase_inst_irrel, List.length_erase_of_mem hr]; omega)
+            simp only [OrdSet.removeAll]
+            omega
+          rw [← hg] at hlen
+          omega
+  | removeFiltered sec pt idx vals =>
+    simp only [MOp.storeOp] at h heq
+    unfold Store.removeFiltered at h heq
+    by_cases hve : vals.isEmpty = true
+    · simp [hve] at h
+    · simp only [hve, Bool.false_eq_true, if_false] at h heq
+      cases hf : s.find sec pt with
+      | none => simp [hf] at h
+      | some d =>
+        simp only [hf] at h heq
+        by_cases hem : (d.policy.filter (filterMatch idx vals)).isEmpty = true
+        · simp [hem] at h
+        · simp only [hem, Bool.false_eq_true, if_false] at heq
+          have hg := Store.getPolicy_update' s sec pt sec pt (fun pol => pol.filter (fun r => !filterMatch idx vals r))
+          rw [heq] at hg
+          simp only [and_self, hf, Option.isSome_some, if_true, true_and, Store.getPolicy] at hg
+          have hex : ∃ x, x ∈ d.policy.filter (filterMatch idx vals) := by
+            cases hl : d.policy.filter (filterMatch idx vals) with
+            | nil => simp [hl] at hem
+            | cons x _ => exact ⟨x, by simp⟩
+          obtain ⟨x, hx⟩ := hex
+          obtain ⟨hx1, hx2⟩ := List.mem_filter.mp hx
+          rw [hg] at hx1
+          have := (List.mem_filter.mp hx1).2
+          simp [hx2] at this
+
+/-- a call that fails after the adapter is out of the way failed in the link update, i.e. after the store
+changed -/
+theorem failed_changes_store (e : Enforcer) (hs : e.autoSave = false) (op : MOp) (hne : op.NonEmpty)
+    (hf : resFailed (op.run e).2 = true) : (op.run e).1.store ≠ e.store := by
+  obtain ⟨ev, sec, pt, ins, rules, ret, hrun, hret, hrf⟩ := run_shape e hs op
+  rw [hrun, finish_store]
+  apply storeOp_changed e.store op hne
+  cases hflag : (op.storeOp e.store).2 with
+  | true => rfl
+  | false =>
+    exfalso
+    rw [hrun, hflag] at hf
+    rw [hflag] at hret
+    simp only [finish, Bool.false_and, Bool.false_eq_true, if_false] at hf
+    unfold Enforcer.linkUpdate at hf
+    simp only [Bool.not_false, Bool.true_or, if_true] at hf
+    rw [hrf] at hf; cases hf
+
+theorem run_autoSave (e : Enforcer) (hs : e.autoSave = false) (op : MOp) : (op.run e).1.autoSave = false := by
+  obtain ⟨ev, sec, pt, ins, rules, ret, hrun, _⟩ := run_shape e hs op
+  rw [hrun]
+  unfold finish
+  have hl : ∀ (x : Enforcer) (c : Bool), (x.linkUpdate c sec pt ins rules ret).1.autoSave = x.autoSave := by
+    intro x c
+    unfold Enforcer.linkUpdate
+    split
+    · rfl
+    · split
+      · rfl
+      · split <;> rfl
+  rw [hl]
+  split
+  · unfold Enforcer.emit; split <;> exact hs
+  · exact hs
+
+/-- a client of the cached enforcer: requests and management calls -/
+inductive COp where
+  | enforce (k : CacheKey)
+  | mgmt (op : MOp)
+
+def COp.NonEmpty : COp → Prop
+  | .enforce _ => True
+  | .mgmt op => op.NonEmpty
+
+def cstep (oracle : Oracle) (c : Cached) : COp → Cached
+  | .enforce k => (c.enforceWith k (fun e => oracle e k)).1
+  | .mgmt op => (c.mgmt (fun e => op.run e) storeOrResChanged).1
+
+theorem cstep_inv (oracle : Oracle) (horacle : ∀ e e', C10.sameCore e e' → ∀ k, oracle e' k = oracle e k)
+    (c : Cached) (hs : CacheSound oracle c) (hsave : c.inner.autoSave = false) (op : COp) (hne : op.NonEmpty) :
+    CacheSound oracle (cstep oracle c op) ∧ (cstep oracle c op).inner.autoSave = false := by
+  cases op with
+  | enforce k =>
+    obtain ⟨_, h2, h3⟩ := enforce_eq_plain oracle c k hs
+    exact ⟨h2, by simp only [cstep]; rw [h3]; exact hsave⟩
+  | mgmt op =>
+    refine ⟨mgmt_sound_all oracle horacle c hs op hsave (failed_changes_store c.inner hsave op hne), ?_⟩
+    simp only [cstep, Cached.mgmt]
+    exact run_autoSave c.inner hsave op
+
+/-- **after every history of requests and management calls** (single, batch, filtered; accepted, without effect or
+failing in the link update; auto-save off) a request — cached or not — is answered exactly as the inner enforcer
+answers it at that moment -/
+theorem cached_history (oracle : Oracle) (horacle : ∀ e e', C10.sameCore e e' → ∀ k, oracle e' k = oracle e k)
+    (ops : List COp) (c : Cached) (hs : CacheSound oracle c) (hsave : c.inner.autoSave = false)
+    (hne : ∀ op ∈ ops, op.NonEmpty) (k : CacheKey) :
+    let c' := ops.foldl (cstep oracle) c
+    (c'.enforceWith k (fun e => oracle e k)).2 = oracle c'.inner k := by
+  intro c'
+  have hinv : CacheSound oracle c' ∧ c'.inner.autoSave = false := by
+    show CacheSound oracle (ops.foldl (cstep oracle) c) ∧ (ops.foldl (cstep oracle) c).inner.autoSave = false
+    induction ops generalizing c with
+    | nil => exact ⟨hs, hsave⟩
+    | cons op ops ih =>
+      obtain ⟨h1, h2⟩ := cstep_inv oracle horacle c hs hsave op (hne op (by simp))
+      exact ih _ h1 h2 (fun o ho => hne o (by simp [ho]))
+  exact (enforce_eq_plain oracle c' k hinv.1).1
+
 /-- the cache key separates a plain request from a context-qualified one with the same
 values, and two contexts that differ in any section name (regression for the repaired key) -/
 example : (([] : List Val), "") ≠ (([] : List Val), "ctx:r2-p2-e2-m2") := by decide
@@ -205,5 +542,16 @@ example : CacheSound demoOracle { inner := dummy, cache := [(([], ""), true)] } 
 cache is cleared (what `enable_enforce` now does) -/
 example : ¬ CacheSound demoOracle { inner := { dummy with enabled := false }, cache := [(([], ""), true)] } := by
   intro h; have := h ([], "") true (by simp); simp [demoOracle] at this
+
+/-- the history theorem's premises are satisfiable: a concrete client history on a concrete enforcer -/
+example :
+    let c : Cached := { inner := { dummy with autoSave := false }, cache := [] }
+    let ops := [COp.mgmt (.add "p" "p" ["a"]), .enforce ([], ""), .mgmt (.removeMany "p" "p" [["a"]])]
+    ((ops.foldl (cstep demoOracle) c).enforceWith ([], "") (fun e => demoOracle e ([], ""))).2 =
+      demoOracle (ops.foldl (cstep demoOracle) c).inner ([], "") :=
+  cached_history demoOracle (fun e e' h k => by simp [demoOracle, h.2.2.2.2.1]) _ _ (new_sound _ _) rfl
+    (by intro op hop
+        simp only [List.mem_cons, List.not_mem_nil, or_false] at hop
+        rcases hop with h | h | h <;> subst h <;> simp [COp.NonEmpty, MOp.NonEmpty]) _
 
 end Casbin.C11
